@@ -278,3 +278,36 @@ func zzH_C16h() {
 	c.Close()
 	vReach("end")
 }
+
+// zzH_C17d: round robin with a stable set of live targets while one more configured target stays down
+// and keeps being probed by the detector between calls: any n consecutive calls still go to n distinct
+// live targets.
+func zzH_C17d() {
+	rt := &zzRT{up: map[string]bool{"a": true, "b": true, "c": false}}
+	c := NewClient(nil)
+	c.Transport = rt
+	c.Scheduling = Scheduling(vChoose("policy", 2)) // RoundRobin, Random (sanity: only live targets)
+	vSetClockStep(1)
+	vSetTimerBudget(vParam("clt.ticks", 3))
+	c.Update("a", "b", "c")
+	vQuiesce()
+	if len(c.list) != 2 {
+		return // the detector has not found both live targets on this schedule
+	}
+	var picked []string
+	for i := 0; i < 2; i++ {
+		n := len(rt.calls)
+		err := c.Call("S.M", nil, nil)
+		vAssert(err == nil && len(rt.calls) == n+1, "call-routed-at-once-when-targets-are-live")
+		if len(rt.calls) == n+1 {
+			vAssert(rt.calls[n] == "a" || rt.calls[n] == "b", "picked-live-target")
+			picked = append(picked, rt.calls[n])
+		}
+		vQuiesce() // detector rounds (probing the dead target) may happen between the calls
+	}
+	if c.Scheduling == RoundRobinScheduling && len(picked) == 2 {
+		vAssert(picked[0] != picked[1], "round-robin-consecutive-calls-distinct")
+	}
+	c.Close()
+	vReach("end")
+}
